@@ -15,15 +15,15 @@ RAW = ['script', 'style']
 PLAIN_ATTRS = ['id', 'title', 'href', 'name', 'lang', 'x_y', 'onclick']
 BOOL_ATTRS = ['checked', 'disabled', 'hidden', 'selected']
 DATA_ATTRS = ['data-x', 'data-long-name']
-VALUES = ['v', '', 'a b', 'x"y', "it's", 'a<b', 'a>b', '1', 'é☃', 'k  l', ' pad ', 'a=b', 'a & b', 'x&', '"', "'\"", '<>', 'tab\there']
+VALUES = ['v', '', 'a b', 'x"y', "it's", 'a<b', 'a>b', '1', 'é☃', 'k  l', ' pad ', 'a=b', 'a & b', 'x&', '"', "'\"", '<>', 'tab\there', 'v1\r\nv2', 'a\rb']
 # + white space of `str.isspace()` beyond ASCII / C's isspace (U+00A0, U+3000, U+2003, U+0085, \x1c): leading, trailing, inner
 CLASS_VALUES = ['k', 'k l', ' k  l ', 'A b-c', '', 'a\tb', None, '\xa0k', 'k\u3000', 'k\xa0l', '\u2003k l\x1c', '\x85', ' \xa0 k']
 STYLE_VALUES = ['color: red', 'color:red;float:left', ' padding-top : 5px ; ', 'display: none;;', '', 'Color: RED', 'a:b;a:c', None,
                 '\xa0color: red', 'color\u3000:\u2003red', 'color: red;\x1c', 'a:\x85b\xa0;c:d', 'top: 1\xa0px']
 PLAIN_TEXT = ['x', ' ', '\n', 'hello world', '  two  ', 'a > b', 'é☃', '\t', 'x\ny', '1 < 2', 'a & b', '"q"', "it's", '\n  ', '>',
-              '\xa0', '\u3000', 'x\xa0y', '\x1c', '\x85\n', '\u2003x']
+              '\xa0', '\u3000', 'x\xa0y', '\x1c', '\x85\n', '\u2003x', 'l1\r\nl2', 'x\ry', '\r\n']
 ATOMS = ['&amp;', '&nbsp;', '&lt;', '&#65;', '&#x41;', '&#8364;', '<!--c-->', '<!-- spaced -->', '<!---->', '<!--a-b-->',
-         '<!--x > y-->', '<!--multi\nline-->']
+         '<!--x > y-->', '<!--multi\nline-->', '<!--cr\r\nlf-->']
 RAW_TEXT = ['x', 'if (a<b && c) {}', 'a { color: red }', '\n  var s = "</div>";\n', '<!-- x -->', 'a &amp; b', '']
 DOCTYPES = ['DOCTYPE html', 'doctype html', 'DOCTYPE html PUBLIC "-//W3C//DTD XHTML 1.0//EN"']
 
@@ -46,13 +46,29 @@ def _raw(items):
     return items
 
 
-def build_block(AHP, b):
+_doc_for_create = []
+
+
+def build_block(AHP, b, via_create=False):
     if b[0] == 't':
         return b[1]
+    if via_create and not b[2] and bool(b[3]) == (b[1].lower() in c02_void()):
+        # `document.createElement(NAME)` in another letter case: a detached, lower-cased, empty element — void names self-closing
+        if not _doc_for_create:
+            _doc_for_create.append(AHP.AdvancedHTMLParser())
+        el = _doc_for_create[0].createElement(b[1].upper() if len(b[1]) % 2 else b[1].capitalize())
+        for k in b[4]:
+            el.appendBlock(build_block(AHP, k, via_create))
+        return el
     el = AHP.AdvancedTag(b[1], [tuple(a) for a in b[2]], bool(b[3]))
     for k in b[4]:
-        el.appendBlock(build_block(AHP, k))
+        el.appendBlock(build_block(AHP, k, via_create))
     return el
+
+
+def c02_void():
+    from ..parsing import VOID
+    return VOID
 
 
 def build_block_edited(AHP, b, later):
@@ -106,7 +122,7 @@ def build_doc(d):
     p = AHP.AdvancedHTMLParser(encoding=d['enc']) if d.get('enc') else AHP.AdvancedHTMLParser()
     blocks = d['blocks']
     later = []
-    mk = (lambda b: build_block_edited(AHP, b, later)) if d.get('via') == 'edited' else (lambda b: build_block(AHP, b))
+    mk = (lambda b: build_block_edited(AHP, b, later)) if d.get('via') == 'edited' else (lambda b: build_block(AHP, b, bool(d.get('create'))))
     if len(blocks) == 1 and blocks[0][0] == 'e':
         root = mk(blocks[0])
     else:
@@ -134,10 +150,33 @@ def build_doc(d):
 
 def reparser(d):
     import AdvancedHTMLParser as AHP
-    p2 = AHP.AdvancedHTMLParser(encoding=d['enc']) if d.get('enc') else AHP.AdvancedHTMLParser()
+    cls = AHP.IndexedAdvancedHTMLParser if d.get('rekind') == 'indexed' else AHP.AdvancedHTMLParser
+    p2 = cls(encoding=d['enc']) if d.get('enc') else cls()
     if d.get('reuse'):
         p2.parseStr('<!DOCTYPE html PUBLIC "old"><section class="old"><i>junk<b>')
     return p2
+
+
+_tmp = []
+
+
+def reparse(d, p2, html):
+    """parse the serialisation back: parseStr, or — `refile` — the same characters written to a file (UTF-8, byte for byte)
+    and read through parseFile(path)"""
+    if not d.get('refile') or d.get('enc') not in (None, 'utf-8'):
+        p2.parseStr(html)
+        return
+    import atexit
+    import os
+    import shutil
+    import tempfile
+    if not _tmp:
+        _tmp.append(tempfile.mkdtemp(prefix='ahp-c01-'))
+        atexit.register(shutil.rmtree, _tmp[0], True)
+    path = os.path.join(_tmp[0], 'doc.html')
+    with open(path, 'wb') as fh:
+        fh.write(html.encode('utf-8', 'surrogatepass'))
+    p2.parseFile(path)
 
 
 def all_elements(root):
@@ -233,6 +272,12 @@ class Check(PropCheck):
             d['via'] = ('api', 'parse', 'edited')[i % 3] if i % 6 != 4 else 'api'
             if i % 4 == 1:
                 d['reuse'] = True       # the serialisation is parsed by a parser object that parsed another document before
+            if i % 5 == 2:
+                d['refile'] = True      # the serialisation goes through a file and parseFile(path)
+            if i % 6 == 1:
+                d['rekind'] = 'indexed'     # ... is parsed by the indexed parser
+            if i % 4 == 3 and d['via'] == 'api':
+                d['create'] = True      # attribute-less elements come from document.createElement(NAME)
             if i % 7 == 3:
                 d['enc'] = ('ascii', 'iso-8859-1', 'utf-16')[(i // 7) % 3]      # a parser constructed for another byte encoding
             yield Case(d, 'random')
@@ -350,7 +395,7 @@ class Check(PropCheck):
     def features(self, d):
         if d['via'] == 'lex':
             return ['via:lex']
-        fs = set((['reused-parser'] if d.get('reuse') else []) + (['encoding:' + d['enc']] if d.get('enc') else []) + ['via:' + d['via'], 'doctype' if d['doctype'] else 'no-doctype',
+        fs = set((['reused-parser'] if d.get('reuse') else []) + [f for f in ('refile', 'create') if d.get(f)] + (['reparse:indexed'] if d.get('rekind') else []) + (['encoding:' + d['enc']] if d.get('enc') else []) + ['via:' + d['via'], 'doctype' if d['doctype'] else 'no-doctype',
                   'single-root' if (len(d['blocks']) == 1 and d['blocks'][0][0] == 'e') else 'multi-root'])
 
         def walk(b, depth):
@@ -422,6 +467,9 @@ class Check(PropCheck):
             yield dict(d, reuse=False)
         if d.get('enc'):
             yield {k: v for k, v in d.items() if k != 'enc'}
+        for flag in ('refile', 'rekind', 'create'):
+            if d.get(flag):
+                yield {k: v for k, v in d.items() if k != flag}
 
     # ---- both sides ------------------------------------------------------------------------------------------------
     def doc_of(self, d):
@@ -459,7 +507,7 @@ class Check(PropCheck):
         html = p.getHTML()
         toks = parsing.tokenize(html)
         p2 = reparser(d)
-        p2.parseStr(html)
+        reparse(d, p2, html)
         root2 = p2.getRoot()
         second = root2 is not None and root2.tagName == WRAPPER
         back = sx('second' if second else 'first', parsing.doc_sx(p2))
@@ -522,7 +570,7 @@ class Check(PropCheck):
                     return ('not-a-string', '%s of <%s> is %s' % (name, e.tagName, type(v).__name__))
         p2 = reparser(d)
         try:
-            p2.parseStr(html)
+            reparse(d, p2, html)
         except Exception as e:     # noqa
             return ('reparse-raises', 'parseStr(getHTML()) raised %s: %s (html=%r)' % (type(e).__name__, e, html))
         r2 = p2.getRoot()
